@@ -3,15 +3,17 @@ from ..sqlgen import *  # noqa
 from ..qcheck import mk_case, run_cases
 from ..common import dec_val, canon
 
+FACTS = True
 MODULE = "Genql.Properties.C06"
-LEAN_TARGETS = [MODULE, "Genql.Properties.Pipeline", "Genql.Properties.C06Model", "Genql.Properties.UnionModel"]
+LEAN_TARGETS = [MODULE, "Genql.Properties.Pipeline", "Genql.Properties.C06Model", "Genql.Properties.UnionModel", "Genql.Obligations.C05"]
 THEOREMS = ["Genql.C06." + t for t in [
     "dedupLoop_eq_spec", "dedup_first_occurrence", "dedup_sublist", "dedup_nodup", "dedup_mem_iff", "dedup_idempotent",
     "union_all_append", "union_dedup", "union_chain_assoc", "union_mixed", "union_limit_outermost"]] + \
     ["Genql.Pipeline." + t for t in ["select_pipeline", "select_filter_project", "select_distinct"]] + \
     ["Genql.ValEqEquiv." + t for t in ["valEq_refl", "valEq_symm", "valEq_trans", "subset_of_nodup_length"]] + \
     ["Genql.C06." + t for t in ["sameWF_equiv", "dedupBy_val", "distinct_model_first_occurrence", "distinct_model_idempotent",
-                               "setKey_nodup", "union_model", "union_all_model"]]
+                               "setKey_nodup", "union_model", "union_all_model"]] + \
+    ["Genql.Obligations.C05.exec_stage_order"]
 TRUSTED = ["fmt %#v renders JSON-like rows injectively (keys sorted, strings quoted) and SHA-256 is collision free: the Go "
            "fingerprint identifies exactly equal rows; probed with adversarial strings", "sqlparser"]
 RULE = ("tables with controlled duplication (values from 2-3 element pools, adversarial strings such as '1 s:x', nested objects) x "
